@@ -9,7 +9,7 @@ import traceback
 from . import facts, mir
 
 VERIF = facts.VERIF
-EVID = os.path.join(VERIF, "evidence")
+EVID = os.environ.get("VERIF_EVIDENCE") or os.path.join(VERIF, "evidence")   # override only for machinery self-tests
 REPORTS = os.path.join(EVID, "reports")
 KNOWN = os.path.join(VERIF, "known_findings.json")
 
